@@ -43,6 +43,12 @@ Value& MODExpression::value(Context & ctx) const
   Value& a1 = _args[1]->value(ctx);
   Value v(Value::type_numeric);
 
+  /* a null number yields null (the typed accessors return a null pointer) */
+  if ((a0.type() == Type::INTEGER || a0.type() == Type::NUMERIC) && a0.type().level() == 0 &&
+      (a1.type() == Type::INTEGER || a1.type() == Type::NUMERIC) && a1.type().level() == 0 &&
+      (a0.isNull() || a1.isNull()))
+    v = Value((a0.type() == Type::INTEGER && a1.type() == Type::INTEGER) ? Value::type_integer : Value::type_numeric);
+  else
   switch (a0.type().major())
   {
   case Type::NO_TYPE:
